@@ -30,7 +30,7 @@ theorem loop_exit (ign : Bool) (pkgs : List Pkg) (hw : Writable pkgs) (se : Bool
     split
     · rename_i hc
       rw [ih hw']
-      simp only [Bool.and_eq_true, Bool.not_eq_true'] at hc
+      simp only [Bool.and_eq_true] at hc
       simp [hc.1]
     · rename_i hc
       split
@@ -41,7 +41,7 @@ theorem loop_exit (ign : Bool) (pkgs : List Pkg) (hw : Writable pkgs) (se : Bool
 
 theorem loop_written (ign : Bool) (pkgs : List Pkg) (hw : Writable pkgs) (se : Bool) (w u : List String) :
     (loop ign pkgs se w u).written =
-      w.reverse ++ ((pkgs.filter (fun p => (!p.hasErr || ign) && p.prior != .same)).map outPath) := by
+      w.reverse ++ ((pkgs.filter (fun p => (!p.hasErr || (ign && !p.noOutput)) && p.prior != .same)).map outPath) := by
   induction pkgs generalizing se w u with
   | nil => simp [loop]
   | cons p ps ih =>
@@ -51,11 +51,14 @@ theorem loop_written (ign : Bool) (pkgs : List Pkg) (hw : Writable pkgs) (se : B
     split
     · rename_i hc
       rw [ih hw']
-      simp only [Bool.and_eq_true, Bool.not_eq_true'] at hc
-      simp [List.filter_cons, hc.1, hc.2]
+      simp only [Bool.and_eq_true] at hc
+      have hf : (!p.hasErr || (ign && !p.noOutput)) = false := by
+        have h1 := hc.1; have h2 := hc.2
+        cases hi : ign <;> cases hn : p.noOutput <;> simp_all
+      simp [List.filter_cons, hf]
     · rename_i hc
-      have hc' : (!p.hasErr || ign) = true := by
-        cases he : p.hasErr <;> cases hi : ign <;> simp_all
+      have hc' : (!p.hasErr || (ign && !p.noOutput)) = true := by
+        cases he : p.hasErr <;> cases hi : ign <;> cases hn : p.noOutput <;> simp_all
       split
       · rename_i hpr; rw [ih hw']; simp [List.filter_cons, hc', hpr]
       · rename_i hpr; rw [ih hw']; simp [List.filter_cons, hc', hpr]
@@ -75,10 +78,11 @@ theorem exit_zero_iff (patternErr ign : Bool) (pkgs : List Pkg) (hw : Writable p
 
 /-- Files (re)written: one per package that translated (or any package, under -ignore-errors)
 whose existing file does not already have that content, at the path derived from its import
-path; a package with a conversion error writes nothing without -ignore-errors. -/
+path; a package with a conversion error writes nothing without -ignore-errors, and a package that
+has no translation at all (load error, refused for reaching two FFIs) writes nothing ever. -/
 theorem files_written (ign : Bool) (pkgs : List Pkg) (hw : Writable pkgs) :
     (run false ign pkgs).written =
-      (pkgs.filter (fun p => (!p.hasErr || ign) && p.prior != .same)).map (fun p => importToPath p.pkgPath) := by
+      (pkgs.filter (fun p => (!p.hasErr || (ign && !p.noOutput)) && p.prior != .same)).map (fun p => importToPath p.pkgPath) := by
   have := loop_written ign pkgs hw false [] []
   simp only [run, Bool.false_eq_true, ↓reduceIte, List.reverse_nil, List.nil_append] at this ⊢
   rw [this]
